@@ -220,7 +220,7 @@ def run(ctx, proof):
                          "any order, descriptions); command lines: walks of depth <= 3 through what bash offers + foreign / glob-looking words, "
                          "x prefixes (empty, cuts of vocabulary items, within-word prefixes, foreign) x COMP_WORDBREAKS {default, empty}; "
                          "non-trivial = distinct matched command line with at least one prescribed candidate")
-    n = 640 if ctx.thorough() else 48
+    n = 400 if ctx.thorough() else 48
     check_grammars(ctx, n, twins=True)
     ctx.extra["programs"] = n
     ctx.extra["disagreements_checked"] = ctx.evaluations
